@@ -499,6 +499,14 @@ def oracle(deck, args, conv, t4, rng):
             out.append((None, f'ALL_COMPLETE {kind} {sid}: SURF {sid} '
                         f'({t4.surfaces[sid][0]}) is not the locus of any '
                         f'surface flagged {want}'))
+        card = last.get(sid)
+        if match and card is not None and card['flag'] != want \
+                and not (dedup and any(k > sid for k in match)):
+            # the designated number is a card of the deck that is not flagged
+            # this way; only a merge of a larger-numbered flagged duplicate
+            # into it (a repaired converter) could justify the entry
+            out.append((None, f'ALL_COMPLETE {kind} {sid}: surface {sid} is '
+                        f'not flagged {want} (only a coincident surface is)'))
         covered.update(match)
     for k, s in flagged.items():
         live = [c for c in users.get(k, []) if c['id'] in written_cells]
@@ -653,6 +661,49 @@ WITNESSES = [('bc_on_deduplicated_surface', 'dedup'),
              ('bc_on_unused_trcl_copy', 'trclskipped'),
              ('bc_on_fill_original_surface', 'fill'),
              ('bc_on_deduplicated_fill_copy', 'fill')]
+
+
+def corpus_decks():
+    '''Minimised decks kept from earlier disagreements / mutation runs: each
+    pins one corner of the model.'''
+    def card(i, flag, idx, text=None, **kw):
+        locus, form, spellings = POOL[idx]
+        d = {'id': i, 'flag': flag, 'text': text or spellings[0], 'mcnp': 1,
+             'cls': CLASS_OF[form], 'aux': [], 'single': True, 'locus': locus,
+             'pool': idx}
+        d.update(kw)
+        return d
+
+    def deck(surfs, cells):
+        return {'surfs': surfs, 'cells': cells, 'fault': None}
+    skip = {'id': 9, 'lits': [1], 'imp': 0}
+    out = []
+    # representative is the smallest NUMBER, not the first card (m3)
+    out.append((deck([card(7, '*', 0), card(3, '', 0, 'p 1 0 0 0'),
+                      card(1, '', 2)],
+                     [{'id': 1, 'lits': [7, -1], 'imp': 1}, skip]), []))
+    # a later card with the same number replaces the earlier one in place (m7)
+    out.append((deck([card(5, '*', 3), card(1, '', 2), card(5, '+', 8)],
+                     [{'id': 1, 'lits': [-5, -1], 'imp': 1}, skip]), []))
+    # TRCL moving a flagged plane onto another card: copy merged into it
+    out.append((deck([card(1, '', 2), card(2, '+', 0), card(4, '', 3)],
+                     [{'id': 1, 'lits': [2, -4], 'imp': 1, 'trcl': '5 0 0'},
+                      {'id': 2, 'lits': [-1, 4], 'imp': 1}, skip]), []))
+    # the same surface twice in a TRCL cell: two copies, the cell is empty
+    # under de-duplication only
+    for args in ([], ['--skip-deduplication']):
+        out.append((deck([card(1, '*', 0), card(2, '', 3)],
+                         [{'id': 1, 'lits': [1, -1], 'imp': 1,
+                           'trcl': '0 0 0'},
+                          {'id': 2, 'lits': [-1, 2], 'imp': 1}, skip]), args))
+    # one-sheet cone (two TRIPOLI-4 parts) flagged, weird flag after a star
+    cone = {'id': 6, 'flag': '+', 'text': 'kz 0 1 1', 'mcnp': 1,
+            'cls': CLASS_OF[('CONEZ', (0.0, 0.0, 0.0, 45.0))],
+            'aux': [CLASS_OF[('PLANEZ', (0.0,))]], 'single': False,
+            'locus': None, 'pool': None}
+    out.append((deck([card(1, '*', 7), cone, card(3, '**', 4)],
+                     [{'id': 1, 'lits': [-1, 3], 'imp': 1}, skip]), []))
+    return out
 
 
 # ---- richer decks for the sweep (outside the model) ------------------------
@@ -957,9 +1008,15 @@ def run(res, tier, seed, proofs_ok):
     # ---- 3. deck-level tie + oracle on the same decks ----
     cases, meta = [], []
     inside = outside = 0
-    for i in range(n_valid + n_bad):
-        deck = gen_deck(rng, malformed=i >= n_valid)
-        args = args_for(rng)
+    corpus = [(witness(kind), args)
+              for kind in ('dedup', 'unused', 'trcl', 'trclcopy', 'trclskipped')
+              for args in ([], ['--skip-deduplication'])] + corpus_decks()
+    for i in range(-len(corpus), n_valid + n_bad):
+        if i < 0:                   # fixed corpus first (not counted below)
+            deck, args = corpus[i]
+        else:
+            deck = gen_deck(rng, malformed=i >= n_valid)
+            args = args_for(rng)
         conv, t4, term = observe(deck, args)
         text = render(deck)
         n_flag = sum(1 for s in deck['surfs'] if s['flag'])
